@@ -101,6 +101,10 @@ theorem gen_asg : ∀ (n : Nat) (t : Ty), t.w ≤ n → Ty.WF cfg t → t.NoAlia
     | richData => unfold Ty.NoAlias at nt; exact absurd nt id
     | any => simp only [generalize, genericType]; exact ⟨self, self⟩
     | unit => simp only [generalize, genericType]; exact ⟨self, self⟩
+    | callable p r k =>
+      have : asg cfg sfh (.callable none none none) (.callable p r k) = true :=
+        viaR cfg sfh rfl (by rw [recv_callable_eq]; exact callAcc_default cfg sfh p r k)
+      simp only [generalize, genericType]; exact ⟨this, this⟩
     | undef => simp only [generalize, genericType]; exact ⟨self, self⟩
     | dflt => simp only [generalize, genericType]; exact ⟨self, self⟩
     | scalar => simp only [generalize, genericType]; exact ⟨self, self⟩
